@@ -7,6 +7,7 @@ from __future__ import annotations
 
 import json
 import os
+import re
 from typing import Any, Dict, List, Optional
 
 HERE = os.path.dirname(os.path.dirname(os.path.abspath(__file__)))
@@ -40,11 +41,37 @@ def m_subtime_divergence(v: dict) -> bool:
     return v.get("kind") == "sequences_differ" and v.get("mech") == "subtime_early"
 
 
+_IV = re.compile(r"^([0-9:]*)\|([0-9:]*)\((\d+)\)$")
+
+
+def _parse_interval(txt: str):
+    mt = _IV.match(txt.strip())
+    if not mt:
+        return None
+    add = tuple(int(x) for x in mt.group(1).split(":") if x != "")
+    ext = tuple(int(x) for x in mt.group(2).split(":") if x != "")
+    return (int(mt.group(3)), len(add), add + ext)
+
+
 def m_incomparable_delays(v: dict) -> bool:
     """C05/C06: run() dies with the tiered-time 'incomparable' assertion while
-    computing minimal delays (paths that leave and re-enter a group)."""
-    return (v.get("kind") in ("run_failed", "crash_instead_of_accept", "crash_instead_of_reject")
-            and v.get("type") == "AssertionError" and "incomparable" in (v.get("msg") or ""))
+    computing minimal delays (paths that leave and re-enter a group) -- and the two
+    delays named in the message really are incomparable as functions on time tuples
+    (a tier that one adds to and the other sets, ordered differently for different
+    departure times).  An 'incomparable' assertion for delays that ARE pointwise
+    ordered is a different defect and is not matched."""
+    if not (v.get("kind") in ("run_failed", "crash_instead_of_accept", "crash_instead_of_reject")
+            and v.get("type") == "AssertionError" and "incomparable" in (v.get("msg") or "")):
+        return False
+    mt = re.match(r"^(\S+) and (\S+) are incomparable", v.get("msg") or "")
+    if not mt:
+        return False
+    a, b = _parse_interval(mt.group(1)), _parse_interval(mt.group(2))
+    if a is None or b is None or a[0] != b[0] or len(a[2]) != len(b[2]) or a[1] == b[1]:
+        return False
+    from .checks.c08 import model_rel
+    le, ge = model_rel(a, b, max(a[2] + b[2] + (0,)) + 2)
+    return not le and not ge
 
 
 def m_rt_consumer_late(v: dict) -> bool:
